@@ -556,7 +556,8 @@ def ecore_opposite_case(ctx, k, tmp):
     broken = rng.choice(['eOpposite="#//C/nothing"', 'eType="#//Nowhere"', 'bogus="1"'])
     first = rng.random() < .5
     good = '<eStructuralFeatures xsi:type="ecore:EReference" name="r1" eType="#//C" eOpposite="a.ecore#//A/toB"/>'
-    bad = f'<eStructuralFeatures xsi:type="ecore:EReference" name="r2" eType="#//C" {broken}/>'
+    bad = ('<eStructuralFeatures xsi:type="ecore:EReference" name="r2" ' + ('' if broken.startswith('eType') else 'eType="#//C" ')
+           + f'{broken}/>')
     open(os.path.join(d, 'b.ecore'), 'w').write(
         '<?xml version="1.0"?>\n<ecore:EPackage xmlns:xmi="http://www.omg.org/XMI" xmlns:xsi="http://www.w3.org/2001/XMLSchema-instance"\n'
         f' xmlns:ecore="http://www.eclipse.org/emf/2002/Ecore" xmi:version="2.0" name="pb" nsURI="http://verif/c18/pb{k}" nsPrefix="pb">\n'
@@ -578,9 +579,12 @@ def ecore_opposite_case(ctx, k, tmp):
     after = (toB.eOpposite, sorted(rset.resources), len(ra.contents[0].eClassifiers))
     if after != before:
         what = 'A.toB.eOpposite now names a reference of the discarded document' if after[0] is not before[0] else 'the resource set changed'
+        # (the recorded finding is the pairing that has already happened when a *later eOpposite* fails — the opposites are
+        # set last, in document order; a failure of anything else comes before every pairing and must leave no trace)
+        known = after[0] is not before[0] and broken.startswith('eOpposite') and first
         ctx.violate({'clause': 'other-resource-changed', 'format': 'ecore', 'trigger': 'eopposite-href-into-loaded-metamodel'
-                     if after[0] is not before[0] else 'none'},
-                    f'after a failed load ({raised}) of a metamodel that names a reference of a loaded metamodel as an eOpposite: {what}',
+                     if known else 'none', 'failure': broken.split('=')[0]},
+                    f'after a failed load ({raised}, the document breaks at {broken}) of a metamodel that names a reference of a loaded metamodel as an eOpposite: {what}',
                     {'case': k, 'format': 'ecore', 'kind': 'ecore-opposite'})
 
 
